@@ -282,7 +282,7 @@ int FIXWriter::execute(f8_thread_cancellation_token& cancellation_token)
 		{
 			Message *inmsg(0);
 			_msg_queue.pop (inmsg); // will block
-			if (!inmsg)
+			if (!inmsg || inmsg == quit_sentinel())
 				break;
 			unique_ptr<Message> msg(inmsg);
 			_session.send_process(msg.get());
